@@ -223,6 +223,48 @@ int main(int argc, char** argv) {
     }
   }
   ctx.count("calls", ncalls); ctx.count("oracle_trajectories", ntraj);
+  // ================================================================= arc-length mode is periodic in a12
+  // The arc length enters through sincosd(a12), an exact reduction modulo 360: lat2 and azi2 for a12 and a12 + 360 k
+  // must agree to round-off (a few ulp of 90 resp. 180 degrees) for any number of circuits k, whatever the solver or call
+  // form.  (The oracle comparison cannot see a loss of this property: its tolerance grows with the number of circuits.)
+  {
+    ctx.sub("arc-periodicity");
+    auto svname = [](int sv) { return sv == 0 ? "series" : (sv == 1 ? "exact" : "exact=true"); };
+    ctx.bound("arc-periodicity", "quick ellipsoids (thorough: all) x 13 lat1 x 13 azi1 x a12 in {30, -150, 90.5, 179.75} x k in {10, 1000, 100000, -12345} x {series, exact, exact=true} x {GenDirect, Line+GenPosition}: lat2, azi2 of a12 + 360k equal those of a12 within 8 ulp of 90 / 180 deg");
+    const double arcs[] = {30, -150, 90.5, 179.75}; const double ks[] = {10, 1000, 100000, -12345};
+    const unsigned M = Geodesic::LATITUDE | Geodesic::LONGITUDE | Geodesic::AZIMUTH | Geodesic::DISTANCE;
+    for (size_t ei = 0; ei < ells.size(); ++ei) {
+      const geodtab::Ell& E = ells[ei];
+      if (!T && !E.quick) continue;
+      std::unique_ptr<Geodesic> gs, gx; std::unique_ptr<GeodesicExact> ge;
+      for (size_t li = 0; li < lats.size(); ++li) {
+        if (!ctx.take()) continue;
+        if (!ge) { if (E.series) gs.reset(new Geodesic(E.a, E.f)); ge.reset(new GeodesicExact(E.a, E.f)); gx.reset(new Geodesic(E.a, E.f, true)); }
+        for (size_t ai = 0; ai < azis.size(); ++ai) for (double a12 : arcs) for (int sv = 0; sv < 3; ++sv) for (int form = 0; form < 2; ++form) {
+          if (sv == 0 && !E.series) continue;
+          Ctx::Case cs(ctx);
+          const double lat1 = lats[li], azi1 = azis[ai];
+          auto call = [&](double arc, double& la, double& az) { double lo, s, t;
+            if (sv == 0) { if (form == 0) gs->GenDirect(lat1, 10, azi1, true, arc, M, la, lo, az, s, t, t, t, t); else gs->Line(lat1, 10, azi1, M | Geodesic::DISTANCE_IN).GenPosition(true, arc, M, la, lo, az, s, t, t, t, t); }
+            else if (sv == 1) { if (form == 0) ge->GenDirect(lat1, 10, azi1, true, arc, M, la, lo, az, s, t, t, t, t); else ge->Line(lat1, 10, azi1, M | GeodesicExact::DISTANCE_IN).GenPosition(true, arc, M, la, lo, az, s, t, t, t, t); }
+            else { if (form == 0) gx->GenDirect(lat1, 10, azi1, true, arc, M, la, lo, az, s, t, t, t, t); else gx->Line(lat1, 10, azi1, M | Geodesic::DISTANCE_IN).GenPosition(true, arc, M, la, lo, az, s, t, t, t, t); } };
+          double la0, az0; call(a12, la0, az0);
+          for (double k : ks) {
+            double arc = a12 + 360 * k;                     // exact: a12 has <= 10 significant bits below the binary point
+            double la, az; call(arc, la, az);
+            double dl = std::fabs(la - la0) / (90 * std::numeric_limits<double>::epsilon());
+            double da = std::fabs(std::remainder(az - az0, 360.0)) / (180 * std::numeric_limits<double>::epsilon());
+            if (std::fabs(la0) > 90 - 1e-9) da = 0;          // azimuth at a pole is a matter of convention
+            ctx.worstf("arc-periodicity.ulps", std::fmax(dl, da), [&] { return E.name + " lat1=" + fmt(lat1) + " azi1=" + fmt(azi1) + " a12=" + fmt(a12) + "+360*" + fmt(k); });
+            if (!(dl <= 8) || !(da <= 8))
+              ctx.fail("e" + std::to_string(ei) + "/la" + std::to_string(li) + "/az" + std::to_string(ai) + "/arc" + fmt(a12) + "/k" + fmt(k) + "/" + svname(sv) + "/f" + std::to_string(form),
+                       E.name + " lat1=" + fx(lat1) + " azi1=" + fx(azi1) + " " + svname(sv) + (form ? " line" : " GenDirect") + ": a12 = " + fmt(a12) + " gives lat2 " + fx(la0) + " azi2 " + fx(az0) + " but a12 + 360*" + fmt(k) + " gives lat2 " + fx(la) + " azi2 " + fx(az),
+                       {{"kind", "arc-periodicity"}, {"ell", E.name}, {"solver", svname(sv)}});
+          }
+        }
+      }
+    }
+  }
   // ================================================================= ends of the exact solver's documented range
   // b/a in {1/100, 1/64, 1/50, 50, 64, 100}: the ODE oracle is too slow there (hours), so only the oracle-free clauses
   // are decided: the (s12, a12) pair returned for an arc-specified length must describe the same point when fed back
